@@ -572,6 +572,7 @@ type c15Case struct {
 	auth  string   // off good bad
 	recv  string   // raw only: "small" = the receiver with max_request_body_size 4096
 	fk    *c15Fake // a sender-side case against the scripted fake servers
+	ovl   string   // != "": an overlap case (compression of the senders, or "mixed"); conc = number of overlapping exports
 	conc  int      // > 0: a concurrency case with that many overlapping senders (monitor)
 	kind  string   // raw only
 	extra string   // raw only: method / content type / …
@@ -923,6 +924,7 @@ func TestVerifC15(t *testing.T) {
 	authd := c15StartReceiver(t, true)
 	fakes := c15StartFakes(t)
 	small := c15StartReceiver(t, false, 4096)
+	px := c15StartProxy(t, open.httpAddr)
 	t.Cleanup(func() {
 		for k, c := range c15XConns {
 			_ = c.Close()
@@ -931,6 +933,17 @@ func TestVerifC15(t *testing.T) {
 	})
 	exps := map[c15ExpKey]*c15Exp{}
 	corpus := append(c15Corpus(), c15BigCorpus()...)
+	// undecodable bodies per signal and encoding (the random choice inside covers garbage / tail-truncated / tail-junk)
+	for _, sg := range c15AllSigs {
+		for _, k := range []string{"badbody", "badbodyjson", "comp:gzip+badbody", "json+comp:zstd+badbodyjson"} {
+			for rep := 0; rep < 3; rep++ {
+				corpus = append(corpus, c15Case{raw: true, tr: "http", kind: k, sig: sg, out: c15Outcome{kind: "ok"}, auth: "off"})
+			}
+		}
+		for rep := 0; rep < 3; rep++ {
+			corpus = append(corpus, c15Case{raw: true, tr: "grpc", kind: "badbody", sig: sg, out: c15Outcome{kind: "ok"}, auth: "off"})
+		}
+	}
 	// gRPC requests grpc-go answers itself: unknown method / service, unknown grpc-encoding, oversized message
 	for _, k := range []string{"badmethod", "badgrpcenc", "oversize", "badmethod+badbody", "badgrpcenc+badbody", "oversize+badbody"} {
 		cc := c15Case{raw: true, tr: "grpc", kind: k, sig: "logs", out: c15Outcome{kind: "ok"}, auth: "off"}
@@ -976,6 +989,10 @@ func TestVerifC15(t *testing.T) {
 		fk := fk
 		corpus = append(corpus, c15Case{fk: &fk, auth: "off"})
 	}
+	// overlap corpus: after a warm-up export, 2-4 real exporters whose body reads overlap for certain (proxy barrier), every compression
+	for i, comp := range append(append([]string{}, c15HTTPComps...), "mixed", "gzip") {
+		corpus = append(corpus, c15Case{ovl: comp, conc: 2 + i%3, auth: "off"})
+	}
 	// concurrency corpus: overlapping senders inside one receiver
 	for _, k := range []int{4, 6, 5} {
 		corpus = append(corpus, c15Case{conc: k, auth: "off"})
@@ -989,6 +1006,8 @@ func TestVerifC15(t *testing.T) {
 		} else if rnd.IntN(5) == 0 {
 			fk := c15GenFake(rnd)
 			c = c15Case{fk: &fk, auth: "off"}
+		} else if rnd.IntN(120) == 0 {
+			c = c15Case{ovl: append([]string{"mixed", "gzip", "gzip"}, c15HTTPComps...)[rnd.IntN(3+len(c15HTTPComps))], conc: 2 + rnd.IntN(3), auth: "off"}
 		} else if rnd.IntN(500) == 0 {
 			c = c15Case{conc: 4 + rnd.IntN(4), auth: "off"}
 		} else {
@@ -1005,6 +1024,13 @@ func TestVerifC15(t *testing.T) {
 		good := c.auth == "good"
 		if c.fk != nil {
 			c15RunFake(t, out, fakes, *c.fk, ci, rnd)
+			out.Linef("nt")
+			out.Linef("end")
+			out.Flush()
+			continue
+		}
+		if c.ovl != "" {
+			c15Overlap(t, out, open, px, ci, c.conc, c.ovl, rnd)
 			out.Linef("nt")
 			out.Linef("end")
 			out.Flush()
@@ -1100,6 +1126,69 @@ func TestVerifC15(t *testing.T) {
 	}
 }
 
+// c15MultiResource: a valid export request of the signal with THREE resource entries, each carrying records
+func c15MultiResource(sig string) (pb, js []byte) {
+	p := c15MakePayload(sig, 3, false, "raw-multi")
+	switch sig {
+	case "logs":
+		p.logs.ResourceLogs().At(0).CopyTo(p.logs.ResourceLogs().AppendEmpty())
+		p.logs.ResourceLogs().At(0).CopyTo(p.logs.ResourceLogs().AppendEmpty())
+		rq := plogotlp.NewExportRequestFromLogs(p.logs)
+		pb, _ = rq.MarshalProto()
+		js, _ = rq.MarshalJSON()
+	case "traces":
+		p.tr.ResourceSpans().At(0).CopyTo(p.tr.ResourceSpans().AppendEmpty())
+		p.tr.ResourceSpans().At(0).CopyTo(p.tr.ResourceSpans().AppendEmpty())
+		rq := ptraceotlp.NewExportRequestFromTraces(p.tr)
+		pb, _ = rq.MarshalProto()
+		js, _ = rq.MarshalJSON()
+	case "profiles":
+		p.pr.ResourceProfiles().At(0).CopyTo(p.pr.ResourceProfiles().AppendEmpty())
+		p.pr.ResourceProfiles().At(0).CopyTo(p.pr.ResourceProfiles().AppendEmpty())
+		rq := pprofileotlp.NewExportRequestFromProfiles(p.pr)
+		pb, _ = rq.MarshalProto()
+		js, _ = rq.MarshalJSON()
+	default:
+		p.m.ResourceMetrics().At(0).CopyTo(p.m.ResourceMetrics().AppendEmpty())
+		p.m.ResourceMetrics().At(0).CopyTo(p.m.ResourceMetrics().AppendEmpty())
+		rq := pmetricotlp.NewExportRequestFromMetrics(p.m)
+		pb, _ = rq.MarshalProto()
+		js, _ = rq.MarshalJSON()
+	}
+	return pb, js
+}
+
+// c15BadBody: an undecodable body — garbage from the first byte, or a VALID multi-resource request damaged only at its tail
+// (truncated / trailing junk): the decoder has then already decoded complete resources when it fails, and none of them may
+// reach the consumer
+func c15BadBody(sig string, json bool, rnd interface{ IntN(int) int }) ([]byte, string) {
+	pb, js := c15MultiResource(sig)
+	if json {
+		switch rnd.IntN(5) {
+		case 0:
+			return []byte(`{"resourceLogs": 5`), "garbage"
+		case 1:
+			return []byte(`not json`), "garbage"
+		case 2:
+			return []byte(`{"resourceLogs":"x","resourceSpans":"x","resourceMetrics":"x","resourceProfiles":"x"}`), "garbage"
+		case 3:
+			return js[:len(js)-2-rnd.IntN(4)], "tail-truncated"
+		}
+		return append(append([]byte{}, js[:len(js)-1]...), []byte(`,"x":`)...), "tail-junk"
+	}
+	switch rnd.IntN(5) {
+	case 0:
+		return []byte{0x0a, 0xff}, "garbage"
+	case 1:
+		return []byte{0xff, 0xff, 0xff, 0xff}, "garbage"
+	case 2:
+		return []byte{0x0a, 0x05, 0x01}, "garbage"
+	case 3:
+		return pb[:len(pb)-1-rnd.IntN(3)], "tail-truncated"
+	}
+	return append(append([]byte{}, pb...), 0x0a, 0xff), "tail-junk"
+}
+
 // c15ModelKind: the stage vocabulary of the model (`Drivers/C15.lean`) for a harness kind
 func c15ModelKind(kind string) (string, bool) {
 	var ks []string
@@ -1140,7 +1229,9 @@ func c15Raw(out *vOut, r *c15Recv, c c15Case, good bool, rnd interface{ IntN(int
 		for _, k := range strings.Split(c.kind, "+") {
 			switch k {
 			case "badbody":
-				body = [][]byte{{0x0a, 0xff}, {0xff, 0xff, 0xff, 0xff}, {0x0a, 0x05, 0x01}}[rnd.IntN(3)]
+				var how string
+				body, how = c15BadBody(c.sig, false, rnd)
+				out.Linef("stat raw_badbody_%s 1", strings.ReplaceAll(how, "-", "_"))
 			case "badmethod":
 				method = []string{strings.TrimSuffix(method, "Export") + "Nope", "/c15.unknown.Service/Export", "/opentelemetry.proto.collector.logs.v2.LogsService/Export"}[rnd.IntN(3)]
 			case "badgrpcenc":
@@ -1201,10 +1292,14 @@ func c15Raw(out *vOut, r *c15Recv, c c15Case, good bool, rnd interface{ IntN(int
 		case "ctype":
 			ctype = []string{"text/plain", "", "application/xml", "application/protobuf", ";;garbage", "application/json+x"}[rnd.IntN(6)]
 		case "badbody":
-			body = [][]byte{{0x0a, 0xff}, {0xff, 0xff, 0xff, 0xff}, {0x0a, 0x05, 0x01}}[rnd.IntN(3)]
+			var how string
+			body, how = c15BadBody(c.sig, false, rnd)
+			out.Linef("stat raw_badbody_%s 1", strings.ReplaceAll(how, "-", "_"))
 		case "badbodyjson":
 			ctype = "application/json"
-			body = [][]byte{[]byte(`{"resourceLogs": 5`), []byte(`not json`), []byte(`{"resourceLogs":"x","resourceSpans":"x","resourceMetrics":"x","resourceProfiles":"x"}`)}[rnd.IntN(3)]
+			var how string
+			body, how = c15BadBody(c.sig, true, rnd)
+			out.Linef("stat raw_badbody_%s 1", strings.ReplaceAll(how, "-", "_"))
 		case "badpath":
 			path = []string{"/v1/unknown", "/", "/v1/logs/extra", "/v2/traces"}[rnd.IntN(4)]
 		case "badenc":
